@@ -6,7 +6,7 @@ from types import CodeType
 
 from .mro import sort_types
 from .recode import generate_dependent_dispatch
-from .utils import MISSING, subtler_type
+from .utils import subtler_type
 
 
 class TypeMap(dict):
@@ -101,7 +101,7 @@ class MultiTypeMap(dict):
         self.tiebreaks = {}
         self.dependent = {}
         self.type_tuples = {}
-        self.empty = MISSING
+        self.signatures = {}
         self.key_error = key_error
         self.name = name
         self.dispatch_id = count()
@@ -152,11 +152,20 @@ class MultiTypeMap(dict):
             for c in candidates:
                 specificities.setdefault(c, []).append(results[c])
 
+        if candidates is None:
+            # A call without any argument: every method that requires none
+            # competes, on priority alone
+            candidates = {
+                handler
+                for handler, sig in self.signatures.items()
+                if not sig.req_pos and not sig.req_names
+            }
+
         candidates = [
             Candidate(
                 handler=c,
                 priority=self.priorities.get(c, 0),
-                specificity=tuple(specificities[c]),
+                specificity=tuple(specificities.get(c, ())),
                 tiebreak=self.tiebreaks.get(c, 0),
             )
             for c in candidates
@@ -212,9 +221,8 @@ class MultiTypeMap(dict):
 
         obj_t_tup = sig.types
         entry = (handler, sig)
-        if not obj_t_tup:
-            self.empty = entry
 
+        self.signatures[handler] = sig
         self.priorities[handler] = sig.priority
         self.tiebreaks[handler] = sig.tiebreak
         self.type_tuples[handler] = obj_t_tup
@@ -379,10 +387,6 @@ class MultiTypeMap(dict):
     def __missing__(self, obj_t_tup):
         if obj_t_tup and isinstance(obj_t_tup[0], CodeType):
             real_tup = obj_t_tup[1:]
-            if not real_tup:
-                # call_next() without arguments: there is nothing below the
-                # method registered for the empty call
-                raise self.key_error(real_tup, ())
             self[real_tup]
             if obj_t_tup[0] not in self.all[real_tup]:
                 return self[real_tup]
@@ -393,13 +397,6 @@ class MultiTypeMap(dict):
                 return self[obj_t_tup]
             else:
                 raise self.key_error(real_tup, ())
-
-        if not obj_t_tup:
-            if self.empty is MISSING:  # pragma: no cover
-                # Might not be reachable because of codegen
-                raise self.key_error(obj_t_tup, ())
-            else:
-                return self.empty[0]
 
         self.resolve(obj_t_tup)
         if obj_t_tup in self.errors:
